@@ -197,9 +197,165 @@ fn url_probe() {
     });
 }
 
+/// `c17 --fs-probe`: end-to-end observation of the FILES the consumers touch.
+/// Per case a fresh sandbox `<T>/root/{symbols,cache,tmp}`; the case's names may use `@T@` for `<T>`.
+/// Decoy files (valid symbol files for the module's id) are placed where an escaping join would
+/// land: for every string X a consumer could join (the whole debug/code file name and obvious
+/// derivatives) at `symbols.join(X)` and `cache.join(X)` whenever that is inside `<T>` but outside
+/// the roots, plus `<T>/outside/secret.bin`, `<T>/x`, `<T>/root/x`.  Then, with a loopback server that
+/// answers every request 200 with a symbol file: `SimpleSymbolSupplier` (locate_symbols + locate_file
+/// for the three kinds, over the symbols dir) and `HttpSymbolSupplier` (same four calls; local path =
+/// symbols dir, cache, tmp).  Every returned path is canonicalized and must lie under symbols/ or
+/// cache/; every file the run created must lie under cache/ or tmp/.
+/// Answer: `F|ok|<n returned>|<n created>` or `F|ESC|<what>`.
+fn fs_probe() {
+    use breakpad_symbols::{HttpSymbolSupplier, SimpleSymbolSupplier, SymbolSupplier};
+    use std::collections::BTreeSet;
+    use std::io::{Read, Write};
+    use std::net::TcpListener;
+    use std::path::PathBuf;
+    use std::time::Duration;
+    let listener = TcpListener::bind("127.0.0.1:0").expect("bind loopback");
+    let port = listener.local_addr().unwrap().port();
+    std::thread::spawn(move || {
+        for s in listener.incoming() {
+            if let Ok(mut s) = s {
+                let mut buf = [0u8; 16384];
+                let _ = s.read(&mut buf);
+                let body = b"MODULE Linux x86 5A9832E5287241C1838ED98914E9B7FF1 served\nFILE 0 a.c\n";
+                let head = format!("HTTP/1.1 200 OK\r\nContent-Length: {}\r\nConnection: close\r\n\r\n", body.len());
+                let _ = s.write_all(head.as_bytes());
+                let _ = s.write_all(body);
+            }
+        }
+    });
+    let rt = tokio::runtime::Builder::new_current_thread().enable_all().build().expect("runtime");
+
+    fn walk(dir: &Path, out: &mut BTreeSet<PathBuf>) {
+        if let Ok(rd) = std::fs::read_dir(dir) {
+            for e in rd.flatten() {
+                let p = e.path();
+                if p.is_dir() {
+                    walk(&p, out);
+                } else {
+                    out.insert(p);
+                }
+            }
+        }
+    }
+    // lexical normalisation (no file system access); None if it climbs above `/`
+    fn normalize(p: &Path) -> Option<PathBuf> {
+        let mut out = PathBuf::new();
+        for c in p.components() {
+            match c {
+                Component::ParentDir => {
+                    if !out.pop() {
+                        return None;
+                    }
+                }
+                Component::CurDir => {}
+                other => out.push(other.as_os_str()),
+            }
+        }
+        Some(out)
+    }
+
+    for_each_case(|line| {
+        let sandbox = tempfile::tempdir().expect("tempdir");
+        let t = sandbox.path().canonicalize().expect("canonical sandbox");
+        let subst = |s: Option<String>| s.map(|x| x.replace("@T@", t.to_str().unwrap()));
+        let mut tk = Toks::new(line);
+        let cf = subst(tok(tk.str()));
+        let df = subst(tok(tk.str()));
+        let did = tok(tk.str()).map(|s| DebugId::from_breakpad(&s).expect("debug id text parses"));
+        let cid = tok(tk.str()).map(CodeId::new);
+        let symbols = t.join("root/symbols");
+        let cache = t.join("root/cache");
+        let tmp = t.join("root/tmp");
+        for d in [&symbols, &cache, &tmp] {
+            std::fs::create_dir_all(d).expect("mkdir");
+        }
+        let id_txt = did.map(|d| d.breakpad().to_string()).unwrap_or_else(|| "000000000000000000000000000000000".into());
+        let content = format!("MODULE Linux x86 {} decoy\nFILE 0 a.c\n", id_txt);
+        // decoys
+        let mut cands: Vec<String> = vec!["../../outside/secret.bin".into(), "../../x".into(), "../x".into()];
+        for name in [&cf, &df].into_iter().flatten() {
+            if name.contains('\0') {
+                continue;
+            }
+            cands.push(name.clone());
+            cands.push(format!("{}.sym", name));
+            if let Some(stem) = name.rsplit_once('.') {
+                cands.push(format!("{}.sym", stem.0));
+            }
+        }
+        for x in &cands {
+            for root in [&symbols, &cache] {
+                if let Some(p) = normalize(&root.join(x)) {
+                    let inside_roots = p.starts_with(&symbols) || p.starts_with(&cache) || p.starts_with(&tmp);
+                    if p.starts_with(&t) && p != t && !inside_roots && !p.exists() {
+                        if let Some(parent) = p.parent() {
+                            if std::fs::create_dir_all(parent).is_ok() && !p.is_dir() {
+                                let _ = std::fs::write(&p, &content);
+                            }
+                        }
+                    }
+                }
+            }
+        }
+        let mut before = BTreeSet::new();
+        walk(&t, &mut before);
+
+        let m = SimpleModule::from_basic_info(df, did, cf, cid);
+        let simple = SimpleSymbolSupplier::new(vec![symbols.clone()]);
+        let http = HttpSymbolSupplier::new(
+            vec![format!("http://127.0.0.1:{}/root/", port)],
+            cache.clone(),
+            tmp.clone(),
+            vec![symbols.clone()],
+            Duration::from_secs(3),
+        );
+        let kinds = [FileKind::BreakpadSym, FileKind::Binary, FileKind::ExtraDebugInfo];
+        let mut returned: Vec<(String, PathBuf)> = vec![];
+        for k in kinds {
+            if let Ok(p) = rt.block_on(simple.locate_file(&m, k)) {
+                returned.push((format!("SimpleSymbolSupplier::locate_file({:?})", k), p));
+            }
+        }
+        let _ = rt.block_on(simple.locate_symbols(&m));
+        for k in kinds {
+            if let Ok(p) = rt.block_on(http.locate_file(&m, k)) {
+                returned.push((format!("HttpSymbolSupplier::locate_file({:?})", k), p));
+            }
+        }
+        let _ = rt.block_on(http.locate_symbols(&m));
+
+        for (who, p) in &returned {
+            let c = p.canonicalize().unwrap_or_else(|_| normalize(p).unwrap_or_else(|| p.clone()));
+            if !(c.starts_with(&symbols) || c.starts_with(&cache)) {
+                let shown = c.strip_prefix(&t).map(|r| format!("<T>/{}", r.display())).unwrap_or_else(|_| c.display().to_string());
+                return format!("F|ESC|{} returned {} which is outside the symbol and cache directories", who, shown);
+            }
+        }
+        let mut after = BTreeSet::new();
+        walk(&t, &mut after);
+        let mut created = 0;
+        for p in after.difference(&before) {
+            created += 1;
+            if !(p.starts_with(&cache) || p.starts_with(&tmp)) {
+                let shown = p.strip_prefix(&t).map(|r| format!("<T>/{}", r.display())).unwrap_or_else(|_| p.display().to_string());
+                return format!("F|ESC|the run created {} outside the cache and tmp directories", shown);
+            }
+        }
+        format!("F|ok|{}|{}", returned.len(), created)
+    });
+}
+
 fn main() {
     if std::env::args().any(|a| a == "--url-probe") {
         url_probe();
+    } else if std::env::args().any(|a| a == "--fs-probe") {
+        fs_probe();
     } else {
         for_each_case(run);
     }
